@@ -10,6 +10,7 @@ import glob
 import itertools
 import json
 import os
+import re
 import shutil
 import sys
 import time
@@ -414,9 +415,11 @@ def finish(ctx, level="proof"):
             "Coq 8.16.1 kernel; vm_compute for running the model in the correspondence check",
             "hand-written Gallina model coq/Rsp09/Model.v of CSPARQLWindow::{scope, add_to_window}, Report::report and "
             "ContentContainer::add for strategies=[OnWindowClose], tick=TimeDriven, t_0=0",
-            "f64 arithmetic of `scope` (ceil(e/slide)*slide, o_i as f64, saturating `as usize`) modelled by exact N/Z "
-            "arithmetic: equal to the code only while timestamp + width + slide < 2^53 (hypothesis, not proved; "
-            "the correspondence streams reach 2^40)",
+            "f64 arithmetic of `scope`: the model uses exact N/Z arithmetic; C09_f64_exact (C09float.v, Flocq) proves that "
+            "the binary64 computation (every +,-,*,/ and int->float conversion rounded to nearest-even, exact ceil, "
+            "saturating cast) returns the same windows whenever timestamp + width + slide < 2^53. Still trusted: that "
+            "Rust/LLVM/the CPU implement IEEE-754 binary64 as Flocq's rounding operator describes, the transcription of "
+            "the Rust expression into Float.f_scope_opt, and inputs beyond 2^53 (correspondence streams reach 2^40)",
             "correspondence check: harness/src/bin/c09.rs (public API: register_callback, WindowRunner/register(); add-only "
             "hooks verif_active_windows / verif_app_time / verif_scope in kolibrie/src/rsp/s2r.rs for the state snapshots), "
             "checks/c09.py generators, canonicalisation (sorted windows / items) and the Python restatement of Spec.v",
@@ -439,9 +442,39 @@ def private_workdir(ctx):
     atexit.register(shutil.rmtree, ctx.work, True)
 
 
+def coq_obligations(ctx):
+    """C09.v (axiom-free property theorems) and C09float.v (binary64 exactness of `scope`, on Flocq and the
+    standard library's real-number axioms) are audited separately and reported together."""
+    n1, d1 = ctx.coq("Rsp09", "C09.v")
+    th1, ax1, cmd1 = (ctx.coverage.get(k) for k in ("theorems", "axioms_used", "checker_cmd"))
+    chk1 = ctx.coverage.get("coqchk")
+    n2, d2 = ctx.coq("Rsp09", "C09float.v")
+    th2, ax2, cmd2 = (ctx.coverage.get(k) for k in ("theorems", "axioms_used", "checker_cmd"))
+    # vf.parse_assumptions misses an axiom whose type is printed on the following line (`name` alone on its line);
+    # list exactly what Print Assumptions prints and audit those names too
+    d = os.path.join(vf.VERIF, "coq", "Rsp09")
+    os.makedirs(os.path.join(ctx.work, "audit"), exist_ok=True)
+    rc, out = vf.sh(["coqc"] + vf.coqproject_flags(d) + ["-o", os.path.join(ctx.work, "audit", "C09float.vo"), "C09float.v"],
+                    cwd=d, timeout=900)
+    if rc == 0:
+        names = sorted(set(re.findall(r"^([A-Za-z_][\w\.']*)\s*(?::.*)?$", out.split("Axioms:", 1)[-1], re.M)) - {"Axioms"}) \
+            if "Axioms:" in out else []
+        notallowed = [n for n in names if n not in vf.AXIOM_ALLOW and n.split(".")[-1] not in vf.AXIOM_ALLOW]
+        if notallowed:
+            ctx.broken("audit", "assumptions", "C09float.v depends on non-allow-listed axioms: %s" % notallowed)
+        ax2 = names or ax2
+    ctx.coverage.update(
+        obligations=n1 + n2, discharged=d1 + d2,
+        theorems=(th1 or []) + [t for t in (th2 or []) if t not in (th1 or [])],
+        axioms_used=["C09.v: " + ", ".join(ax1 or ["(not built)"]), "C09float.v: " + ", ".join(ax2 or ["(not built)"])],
+        checker_cmd="%s ; %s" % (cmd1, cmd2))
+    if chk1 is not None:
+        ctx.coverage["coqchk"] = "ok" if chk1 == "ok" and ctx.coverage.get("coqchk") == "ok" else "FAILED"
+
+
 def run(ctx):
     private_workdir(ctx)
-    ctx.coq("Rsp09", "C09.v")
+    coq_obligations(ctx)
     binpath = ctx.harness("c09")
     known_witness(ctx, binpath)
     # corpus first
@@ -482,7 +515,7 @@ def replay(ctx):
         b = (ctx.replay.get("broken") or [{}])[0].get("case") or {}
         c = b.get("case", b)
     if not c or "w" not in c:
-        ctx.coq("Rsp09", "C09.v")
+        coq_obligations(ctx)
         finish(ctx)
     evaluate(ctx, binpath, [c], "replay")
     finish(ctx)
